@@ -473,6 +473,17 @@ void make_world(vh::Case &c, World &w)
     in.name         = std::string(1, static_cast<char>('a' + i));
     in.kind         = static_cast<int>(rd.below(4));
     unsigned nviews = static_cast<unsigned>(rd.weighted({5, 3, 2}));
+    // a "twin": same name and kind as the previous instrument, the other value type (long <-> double).
+    // It is a different instrument; only generated without views on either (a view selects by name).
+    if (i > 0 && w.instrs.back().views.empty() && (i < 2 || w.instrs[i - 2].name != w.instrs.back().name) &&
+        rd.chance(30))
+    {
+      const InstrCfg &prev = w.instrs.back();
+      in.name              = prev.name;
+      in.kind = prev.kind == kCtrLong ? kCtrDouble : prev.kind == kCtrDouble ? kCtrLong : prev.kind == kUdLong ? kUdDouble : kUdLong;
+      nviews  = 0;
+      c.tag("same-name-other-value-type");
+    }
     if (nviews == 2 && vh::excluded("F8"))
     {
       // open finding F8: of two views matching one instrument only the last stream is collected
@@ -587,7 +598,9 @@ Handle *create_handle(vh::Case &c, World &w, int m, int i)
     for (auto &vc : vs)
     {
       StreamM s;
-      s.key    = meter_name(m) + "/" + vc.stream_name;
+      // the value type is part of the stream key: two instruments of one meter may share a name and
+      // differ in value type only (they are different instruments, each with its own stream)
+      s.key    = meter_name(m) + "/" + vc.stream_name + (is_double(in.kind) ? "#d" : "#l");
       s.instr  = i;
       s.filter = vc.filter;
       w.by_key[s.key] = w.streams.size();
@@ -653,7 +666,9 @@ std::vector<Got> run_collect(sdkm::MetricReader &reader, bool *ok, std::string *
         continue;
       }
       for (auto &md : sm.metric_data_)
-        got.push_back(Got{sm.scope_->GetName() + "/" + md.instrument_descriptor.name_, md});
+        got.push_back(Got{sm.scope_->GetName() + "/" + md.instrument_descriptor.name_ +
+                              (md.instrument_descriptor.value_type_ == sdkm::InstrumentValueType::kDouble ? "#d" : "#l"),
+                          md});
     }
     return true;
   });
@@ -1371,7 +1386,7 @@ int64_t sum_of(const std::vector<Got> &got, const std::string &key)
 {
   int64_t s = 0;
   for (auto &g : got)
-    if (g.key == key)
+    if (g.key == key + "#l" || g.key == key + "#d" || g.key == key)
       for (auto &p : g.md.point_data_attr_)
         if (nostd::holds_alternative<sdkm::SumPointData>(p.point_data) &&
             nostd::holds_alternative<int64_t>(nostd::get<sdkm::SumPointData>(p.point_data).value_))
